@@ -89,12 +89,10 @@ def run(chk):
 
     def position(r):
         """the sample index `now` maps to on this path: SPF when now >= 1.0, else (SPF as f64 * now) as usize"""
-        cand = None
-        for c in r.pc:
-            if c[0] in ("eq", "ne") and isinstance(c[1], T) and c[1].op in ("ult", "ule") and LAST in c[1].args:
-                cand = [a_ for a_ in c[1].args if a_ is not LAST][0]
-        if cand is None:
-            return None, "no comparison of the position with the last position"
+        # the position is what the path records as the new last position
+        cand = r.store[("h", "mix")].fields[fi("last_pos")]
+        if not isinstance(cand, T) or cand is LAST:
+            return None, "the last position is not advanced on a path that queues samples (%s)" % (cand,)
         ge1 = None
         for c in r.pc:
             if c[0] in ("eq", "ne") and isinstance(c[1], T) and c[1].op in ("app:fGe", "app:fGt", "app:fLt", "app:fLe") and NOW in c[1].args and 1.0 in [fconst(a_) for a_ in c[1].args]:
